@@ -512,6 +512,49 @@ func freeRows(b *xlsxBook, rows []genRow) []genRow {
 	return free
 }
 
+// closedGroup: the field rows that must be disabled together with `target` for the product
+// selection to stay dependency-closed: parents of sub-field rows whose reference field is in the
+// group, and rows whose components name a member — to a fixed point. nil if it touches file_id or grows large.
+func closedGroup(b *xlsxBook, rows []genRow, target genRow) []int {
+	sheet := b.Sheets[1].Rows
+	in := map[string]bool{target.Name: true}
+	idx := map[int]bool{target.RowIdx: true}
+	mentions := func(cellText string) bool {
+		for _, c := range strings.Split(cellText, ",") {
+			if in[camel(strings.TrimSpace(c))] {
+				return true
+			}
+		}
+		return false
+	}
+	for changed := true; changed; {
+		changed = false
+		for _, r := range rows {
+			if r.Msg != target.Msg || idx[r.RowIdx] {
+				continue
+			}
+			dep := mentions(cell(sheet[r.RowIdx], 5))
+			for j := r.RowIdx + 1; j < len(sheet) && cell(sheet[j], 1) == "" && cell(sheet[j], 2) != ""; j++ {
+				if mentions(cell(sheet[j], 11)) || mentions(cell(sheet[j], 5)) {
+					dep = true
+				}
+			}
+			if dep {
+				idx[r.RowIdx], in[r.Name], changed = true, true, true
+			}
+		}
+	}
+	if target.Msg == "FileId" || len(idx) > 10 {
+		return nil
+	}
+	var out []int
+	for i := range idx {
+		out = append(out, i)
+	}
+	sort.Ints(out)
+	return out
+}
+
 var bundledSDKs = []string{"16.20", "20.14", "20.27", "20.43", "21.40"}
 
 func init() {
@@ -576,7 +619,7 @@ func init() {
 			nv = 8
 		}
 		return []CaseSet{cs},
-			fmt.Sprintf("the real fitgen command on the 5 bundled workbooks (as .xlsx with -sdk and wrapped into an SDK zip) and %d product-profile variant(s) per workbook obtained by disabling random sets of field rows that nothing depends on (edited in the workbook XML), each run twice: exit status, byte-identical outputs, declared SDK version, lookup table and struct fields extracted from the generated sources equal the table computed from the independently read workbook rows (also computed by the Lean model), compilation with the minimal support set; compilation with the whole library is expected to fail for the bundled (older) workbooks (known finding D16)", nv), false
+			fmt.Sprintf("the real fitgen command on the 5 bundled workbooks (as .xlsx with -sdk and wrapped into an SDK zip) and %d product-profile variant(s) per workbook obtained by disabling random sets of field rows that nothing depends on, dependency-closed groups around referenced rows (always heart_rate_source_type, for which the generator has a named quirk), and the -hrst flag (edited in the workbook XML), each run twice: exit status, byte-identical outputs, declared SDK version, lookup table and struct fields extracted from the generated sources equal the table computed from the independently read workbook rows (also computed by the Lean model), compilation with the minimal support set; compilation with the whole library is expected to fail for the bundled (older) workbooks (known finding D16)", nv), false
 	}
 	propPost["C19"] = postC19
 }
@@ -613,6 +656,7 @@ func postC19(res *RunResult) {
 			name string
 			data []byte
 			off  []int
+			hrst bool
 		}
 		variants := []variant{{name: "bundled", data: data}}
 		base, err := workbookRows(book, false)
@@ -639,13 +683,59 @@ func postC19(res *RunResult) {
 			}
 			variants = append(variants, variant{name: fmt.Sprintf("variant%d(-%d rows)", v, len(off)), data: vd, off: off})
 		}
+		// dependency-closed groups around referenced rows; always the one the generator has a named
+		// quirk for (heart_rate_source_type), with and without the -hrst flag
+		var referenced []genRow
+		for _, fr := range base {
+			if fr.Enabled && fr.Msg != "FileId" {
+				isFree := false
+				for _, x := range free {
+					if x.RowIdx == fr.RowIdx {
+						isFree = true
+					}
+				}
+				if !isFree && !fr.HasComps {
+					referenced = append(referenced, fr)
+				}
+			}
+		}
+		addGroup := func(t genRow, hrst bool) {
+			g := closedGroup(book, base, t)
+			if g == nil {
+				return
+			}
+			vd, err := variantWorkbook(book, g)
+			if err != nil {
+				res.Notes = append(res.Notes, "group variant construction failed for "+sdk+": "+err.Error())
+				return
+			}
+			name := fmt.Sprintf("group(%s.%s,-%d rows)", t.Msg, t.Name, len(g))
+			if hrst {
+				name += " -hrst"
+			}
+			variants = append(variants, variant{name: name, data: vd, off: g, hrst: hrst})
+		}
+		for _, fr := range base {
+			if fr.Name == "HeartRateSourceType" && fr.Enabled {
+				addGroup(fr, false)
+				addGroup(fr, true)
+			}
+		}
+		for v := 0; v < nVariants && len(referenced) > 0; v++ {
+			addGroup(referenced[r.intn(len(referenced))], false)
+		}
+		variants = append(variants, variant{name: "bundled -hrst", data: data, hrst: true})
 		for vi, v := range variants {
 			label := sdk + "/" + v.name
 			in := filepath.Join(work, fmt.Sprintf("%s_%d.xlsx", sdk, vi))
 			os.WriteFile(in, v.data, 0o644)
 			out1, out2 := filepath.Join(work, "o1"), filepath.Join(work, "o2")
-			log1, err1 := runFitgen(bin, []string{"-sdk", sdk, in}, out1)
-			_, err2 := runFitgen(bin, []string{"-sdk", sdk, in}, out2)
+			args := []string{"-sdk", sdk, in}
+			if v.hrst {
+				args = []string{"-hrst", "-sdk", sdk, in}
+			}
+			log1, err1 := runFitgen(bin, args, out1)
+			_, err2 := runFitgen(bin, args, out2)
 			runs += 2
 			if err1 != nil || err2 != nil {
 				addViolation(res, "fitgen -sdk "+sdk+" "+label, clip(log1), "fitgen did not exit successfully")
@@ -663,7 +753,7 @@ func postC19(res *RunResult) {
 				addViolation(res, label, err.Error(), "cannot re-read variant workbook")
 				continue
 			}
-			rows, err := workbookRows(vb, false)
+			rows, err := workbookRows(vb, v.hrst)
 			if err != nil {
 				addViolation(res, label, err.Error(), "cannot compute expected table")
 				continue
